@@ -289,6 +289,97 @@ func init() {
 		}
 		return TupleV{s, IfaceV{}}
 	}
+	// os.Create / (*os.File).Write / Close: an output file is a growing entry of the file table
+	intercepts["os.Create"] = func(e *Engine, fn *ssa.Function, a []Value) Value {
+		name, ok := a[0].(string)
+		if !ok {
+			e.inconclusive("os.Create with symbolic path")
+		}
+		ft := e.L.pkgs["os"].Type("File").Type()
+		hdr := e.newHdr("os.File")
+		cell := &Cell{v: e.zero(ft, hdr)}
+		e.files[name] = &memFile{}
+		if e.openFiles == nil {
+			e.openFiles = map[*Cell]string{}
+		}
+		e.openFiles[cell] = name
+		return TupleV{Ptr{c: cell, hdr: hdr}, IfaceV{}}
+	}
+	intercepts["(*os.File).Write"] = func(e *Engine, fn *ssa.Function, a []Value) Value {
+		ptr := a[0].(Ptr)
+		name, ok := e.openFiles[ptr.c]
+		if !ok {
+			e.inconclusive("write to a file that was not opened through os.Create")
+		}
+		sl := a[1].(SliceV)
+		mf := e.files[name]
+		for i := 0; i < sl.len; i++ {
+			mf.data = append(mf.data, sl.arr.e[sl.off+i].v.(*Term))
+		}
+		return TupleV{e.ts.Const(64, uint64(sl.len)), IfaceV{}}
+	}
+	intercepts["(*os.File).Close"] = func(e *Engine, fn *ssa.Function, a []Value) Value { return IfaceV{} }
+	// io.CopyN(dst, src, n) with concrete n: src.Read until n bytes or an error, then dst.Write
+	intercepts["io.CopyN"] = func(e *Engine, fn *ssa.Function, a []Value) Value {
+		dst, src := a[0].(IfaceV), a[1].(IfaceV)
+		nt := a[2].(*Term)
+		if !nt.IsConst() {
+			e.inconclusive("io.CopyN with symbolic length")
+		}
+		n := int(int64(nt.val))
+		if n < 0 {
+			n = 0
+		}
+		method := func(iv IfaceV, name string) *ssa.Function {
+			if iv.t == nil {
+				e.programPanic("nil pointer dereference")
+			}
+			ms := e.L.prog.MethodSets.MethodSet(iv.t)
+			for i := 0; i < ms.Len(); i++ {
+				if ms.At(i).Obj().Name() == name {
+					return e.L.prog.MethodValue(ms.At(i))
+				}
+			}
+			panic("io.CopyN: no method " + name + " on " + iv.t.String())
+		}
+		buf := e.newSlice(types.Typ[types.Uint8], n, n, "io.CopyN buffer")
+		for i := range buf.arr.e {
+			buf.arr.e[i].v = e.ts.Const(8, 0)
+		}
+		got := 0
+		var rerr Value = IfaceV{}
+		rd := method(src, "Read")
+		for got < n {
+			sub := buf
+			sub.off, sub.len, sub.cap = buf.off+got, n-got, n-got
+			res := e.call(rd, []Value{src.v, sub}, nil).(TupleV)
+			k := res[0].(*Term)
+			if !k.IsConst() {
+				e.inconclusive("io.CopyN: symbolic read count")
+			}
+			got += int(k.val)
+			if ev := res[1].(IfaceV); ev.t != nil {
+				rerr = ev
+				break
+			}
+			if k.val == 0 {
+				break
+			}
+		}
+		out := buf
+		out.len, out.cap = got, got
+		wres := e.call(method(dst, "Write"), []Value{dst.v, out}, nil).(TupleV)
+		if wv := wres[1].(IfaceV); wv.t != nil {
+			return TupleV{wres[0], wv}
+		}
+		if got < n {
+			if ev := rerr.(IfaceV); ev.t == nil {
+				rerr = e.makeError("EOF", nil)
+			}
+			return TupleV{e.ts.Const(64, uint64(got)), rerr}
+		}
+		return TupleV{e.ts.Const(64, uint64(got)), IfaceV{}}
+	}
 	intercepts["github.com/Eyevinn/mp4ff/mp4.WriteToFile"] = func(e *Engine, fn *ssa.Function, a []Value) Value {
 		// model of os.Create + Encode + Close: the box structure is encoded (by the interpreted
 		// Encode method) into a bytes.Buffer whose content becomes the file
